@@ -740,6 +740,7 @@ func TestFrames(t *testing.T) {
 				if hasConsumer[decodedCode] {
 					evid.Count("frame.reached_consumer." + dn)
 					evid.NonTrivial(fmt.Sprintf("frame|%s|%s|%v|%v|%v|%v|%d", dn, f.what, f.muts, g.txCount.calls > txCalls, g.keyCount.pub > pubCalls, g.keyCount.priv > privCalls, pr.VerifC12QueuedRequests()-queued))
+					evid.Sample("frame", fmt.Sprintf("frame|%s|%s|%v|%v|%v|%v|%d", dn, f.what, f.muts, g.txCount.calls > txCalls, g.keyCount.pub > pubCalls, g.keyCount.priv > privCalls, pr.VerifC12QueuedRequests()-queued))
 				}
 			} else if herr != nil {
 				switch {
